@@ -162,6 +162,33 @@ def step (s : St) : List String → St × String
   | ["needfull", fullIvl, retryIvl, sinceFull, sinceErr] =>
     (s, showB (Agd.ProfileDB.needsFullSync (int! fullIvl) (int! retryIvl) (int! sinceFull)
       (if sinceErr == "-" then none else some (int! sinceErr))))
+  | "bpsched" :: tz :: weekly :: days =>
+    -- backendpb (*ScheduleSettings).toInternal: tz `none` = no schedule on the wire, `x` = unknown
+    -- zone; weekly 0 = weekly_range absent; a day is `-` (absent) or `start:end` (`-` = absent bound)
+    let optNat (t : String) : Option Nat := if t == "-" then none else some (nat! t)
+    let day (t : String) : Option Agd.ProfileCache.WireDay :=
+      if t == "-" then none else
+        match t.splitOn ":" with
+        | [a, b] => some ⟨optNat a, optNat b⟩
+        | _ => none
+    let w : Option Agd.ProfileCache.WireSchedule := if tz == "none" then none else
+      some { tz := if tz == "x" then none else some (nat! tz),
+             weekly := if weekly == "0" then none else some (days.map day) }
+    let showDay : Option Agd.ProfileCache.DayIvl → String
+      | none => "-"
+      | some i => s!"{i.start.toNat}-{i.stop.toNat}"
+    (s, match Agd.ProfileCache.backendSchedule w with
+      | .panic => "panic"
+      | .reject => "reject"
+      | .ok none => "nosched"
+      | .ok (some c) => s!"tz={c.tz} " ++ " ".intercalate
+          ([c.sun, c.mon, c.tue, c.wed, c.thu, c.fri, c.sat].map showDay))
+  | ["worker", script] =>
+    -- agdservice.RefreshWorker over ticks `e` (a refresh that returns) / `p` (a refresh that
+    -- panics): how many refreshes ever happen (the panicking one included)
+    let ticks : List Tick := script.toList.map fun c => if c == 'p' then Tick.panic else Tick.ev (.failed false)
+    let applied := (workerEvs ticks).length
+    (s, toString (if applied < ticks.length then applied + 1 else applied))
   | ["bpaccess", mode] =>
     let w : Option Agd.ProfileCache.WireAccess := if mode == "0" then none else
       some { enabled := mode == "2", cfg := ⟨[], [], [], [], []⟩ }
